@@ -116,14 +116,32 @@ def title(ctx, n, trailing_nul):
 
 @harness("C12.zombie_cmdline")
 def zombie_cmdline(ctx):
-    k = base(ctx, zombie=True)
-    with k.installed():
+    """a zombie's empty cmdline raises ZombieProcess -- also when the process turned into a zombie in the middle of a oneshot() block
+    whose cache was filled (name(), status(), ppid() ...) while it was still running; a live process with an empty cmdline gives []"""
+    k = base(ctx, zombie=False)
+    inside = ctx.flag("inside_oneshot_block")
+    warm = ctx.choice("asked_before", [None, "status", "name", "ppid", "cpu_times"]) if inside else None
+    zombie_now = ctx.flag("zombie_now")
+    import contextlib
+
+    with k.installed(), contextlib.ExitStack() as stack:
         p = psutil.Process(77)
+        if inside:
+            stack.enter_context(p.oneshot())
+            if warm:
+                getattr(p, warm)()
+        if zombie_now:        # the process exits and is not reaped: state Z, cmdline/environ/smaps empty, exe/cwd links gone
+            simk.full_process(k, 77, zombie=True)
+        else:
+            k.files["/proc/77/cmdline"] = ""          # alive, but it wiped its own command line
         try:
             r, exc = p.cmdline(), None
         except psutil.ZombieProcess as e:
             r, exc = None, e
-    ctx.prove(exc is not None and exc.pid == 77, "zombie-empty-cmdline")
+    if zombie_now:
+        ctx.prove(exc is not None and exc.pid == 77, "zombie-empty-cmdline", detail=f"inside oneshot={inside}, asked before: {warm}: cmdline() -> {r!r}")
+    else:
+        ctx.prove(exc is None and r == [], "live-empty-cmdline", detail=f"{exc!r} {r!r}")
 
 
 ENV_Q = [[], [(1, 1, True)], [(2, 2, True), (2, 1, True)], [(1, 2, False), (1, 0, True)], [(0, 2, True), (2, 0, True)], [(1, 1, True), (1, 1, True)]]
